@@ -407,12 +407,23 @@ Section ProvC.
     induction H as [|p l Hp Hl IH]; [apply TI_nil|]. destruct l as [|q l']; [exact Hp|]. apply TI_app; [exact Hp|]. apply TI_app; [ti | exact IH].
   Qed.
 
+  Lemma TI_join_preds l : Forall TI l -> TI (join_preds l).
+  Proof. induction 1 as [|p l Hp Hl IH]; [apply TI_nil|]. cbn [join_preds]. destruct l as [|q l']; [exact Hp|]. apply TI_app; [exact Hp|]. apply TI_app; [ti | exact IH]. Qed.
+
+  Lemma TI_print_where_all own w : Forall TI own -> opt_ok (fun w => Forall TI (wa_preds w)) w -> TI (print_where_all own w).
+  Proof.
+    intros Ho Hw. unfold print_where_all. destruct own as [|p own']; [apply TI_print_where; exact Hw|].
+    destruct w as [a|]; cbn [opt_ok] in Hw; (apply TI_ident; [lit|]).
+    - apply TI_app; [apply TI_join_preds; exact Ho|]. apply TI_app; [ti | apply TI_join_preds; exact Hw].
+    - apply TI_join_preds. exact Ho.
+  Qed.
+
   Lemma these_lts_ok gens : Forall gparam_ok gens -> Forall (fun n => P n) (flat_map (fun g => if gp_is_lt g then [gp_name g] else []) gens).
   Proof. induction 1 as [|g l [Hn _] _ IH]; cbn [flat_map]; [constructor|]. destruct (gp_is_lt g); cbn [app]; [constructor; assumption | exact IH]. Qed.
 
   Lemma trait_env_ok t c : tview_ok t -> ictx_ok c -> env_ok (trait_env t c).
   Proof.
-    intros (Hg & Hd & Hw) Hc. assert (Hcore : core_ok (c_core c)) by apply Hc. destruct Hcore as ((Htp & Hta) & _ & _ & _ & _ & _ & Hat & Hia & Hin).
+    intros (Hg & Hd & Hw & How) Hc. assert (Hcore : core_ok (c_core c)) by apply Hc. destruct Hcore as ((Htp & Hta) & _ & _ & _ & _ & _ & Hat & Hia & Hin).
     assert (Hdst : TI (c_dst c)) by apply Hc. assert (Hsrc : TI (c_src c)) by apply Hc.
     unfold trait_env. cbv zeta.
     set (these_lts := flat_map _ (tv_generics t)). set (those_lts := angle_lts (tp_generics (c_ty c))).
@@ -432,7 +443,7 @@ Section ProvC.
     - unfold c_ty. destruct (tp_generics (tc_ty (c_core c))) as [a|]; cbn [opt_ok] in Hta; [apply TI_print_angle; exact Hta | apply TI_nil].
     - apply TI_print_impl_generics. destruct ref_lts as [|x r]; [exact Hg1|]. apply push_param_ok; [exact Hg1|].
       split; cbn [gp_name gp_decl]; [lit|]. apply TI_app; [apply TI_lifetime; lit|]. apply TI_app; [ti | apply TI_join_plus; exact H3].
-    - apply TI_print_where. exact Hw.
+    - apply TI_print_where_all; assumption.
     - destruct (is_ref (c_kind c)); [|apply TI_nil]. destruct ref_lts; [ti|]. apply TI_punct. apply TI_lifetime. lit.
   Qed.
 
@@ -494,7 +505,8 @@ Section ProvC.
     Forall (fun w => Forall TI (wa_preds w)) (d_where d) /\ Forall child_parents_ok (d_child_parents d).
   Definition data_ok (d : data_type) : Prop :=
     P (dt_ident d) /\ Forall gparam_ok (dt_generics d) /\ dt_attrs_ok (dt_get_attrs d) /\
-    match d with DStruct s => Forall field_ok (s_fields s) | DEnum e => Forall variant_ok (e_variants e) end.
+    match d with DStruct s => Forall field_ok (s_fields s) | DEnum e => Forall variant_ok (e_variants e) end /\
+    Forall TI (dt_where d).
 
   Lemma find_for_ok {A} (Q : A -> Prop) ty_of ok (l : list A) ty x : Forall Q l -> find_for ty_of ok l ty = Some x -> Q x.
   Proof.
@@ -560,13 +572,13 @@ Section ProvC.
 
   Lemma view_type_ok k fl ty d : data_ok d -> tview_ok (view_type k fl ty d).
   Proof.
-    intros (Hid & Hg & Ha & Hd). unfold tview_ok, view_type. cbn [tv_generics tv_data tv_where]. split; [exact Hg|]. split.
+    intros (Hid & Hg & Ha & Hd & How). unfold tview_ok, view_type. cbn [tv_generics tv_data tv_where tv_own_where]. split; [exact Hg|]. split.
     - destruct d as [s|e]; cbn [dview_ok dt_get_attrs] in *.
       + apply view_struct_ok; assumption.
       + split.
         * rewrite Forall_forall in *. intros x Hx. apply in_map_iff in Hx. destruct Hx as (v & <- & Hin). apply view_variant_ok, Hd, Hin.
         * unfold ghosts_attr_for. apply ghosts_attr_for_ok. apply Ha.
-    - unfold where_attr_for. apply opt_find_for_ok. apply Ha.
+    - split; [unfold where_attr_for; apply opt_find_for_ok; apply Ha | exact How].
   Qed.
 
   Lemma impl_contexts_ok d : data_ok d -> Forall ictx_ok (impl_contexts d).
